@@ -3,6 +3,7 @@ package props
 import (
 	"bytes"
 	"fmt"
+	"github.com/IBM/fluent-forward-go/fluent/protocol"
 
 	"github.com/tinylib/msgp/msgp"
 
@@ -138,6 +139,40 @@ func C13(c *core.Ctx) {
 			}
 		}
 	}
+	// 2b. fields of a type the mode does not use, in the short and the long arity: a PackedForward whose event
+	//     stream is a str (other implementations write it so), a Forward whose entries are a bin, a Message whose
+	//     time is a str: rejected, or consumed to the boundary, never read short
+	for _, L := range []int{0, 3, 31, 32, 40, 255, 256, 70000} {
+		body := bytes.Repeat([]byte{0x80}, L)
+		for _, arity := range []int{2, 3} {
+			enc := []byte{byte(0x90 + arity), 0xa1, 't'}
+			enc = gen.AltStr(r, enc, body, r.Intn(2) == 0)
+			if arity == 3 {
+				enc = append(enc, 0x81, 0xa5, 'c', 'h', 'u', 'n', 'k', 0xa1, 'c')
+			}
+			follow, _ := marshal(&protocol.PackedForwardMessage{Tag: "next", EventStream: []byte{0x01}})
+			for _, mode := range gen.Modes {
+				c13One(c, mode, append(append([]byte{}, enc...), follow...), "str-where-bin")
+			}
+			encB := []byte{byte(0x90 + arity), 0xa1, 't'}
+			encB = gen.AltBin(r, encB, body, false)
+			if arity == 3 {
+				encB = append(encB, 0xc0)
+			}
+			c13One(c, "forward", append(append([]byte{}, encB...), follow...), "bin-where-array")
+		}
+	}
+	// 2c. an entry list far beyond the header-class boundaries (an implementation may cap what it allocates up
+	//     front): Forward without options, followed by another message
+	for _, n := range c13BigCounts(c) {
+		enc := []byte{0x92, 0xa1, 't'}
+		enc = gen.AltArrHdr(r, enc, n, false)
+		for i := 0; i < n; i++ {
+			enc = append(enc, 0x92, 0xd7, 0x00, byte(i>>24), byte(i>>16), byte(i>>8), byte(i), 0, 0, 0, 5, 0x80)
+		}
+		follow, _ := marshal(&protocol.Message{Tag: "next", Timestamp: 1, Record: map[string]interface{}{}})
+		c13One(c, "forward", append(enc, follow...), fmt.Sprintf("forward with %d entries + follow", n))
+	}
 	// 3. random byte strings
 	for i := 0; i < c.N(1500, 60000); i++ {
 		b := gen.RandomBytes(r)
@@ -146,4 +181,13 @@ func C13(c *core.Ctx) {
 		}
 		c13One(c, gen.Modes[r.Intn(4)], b, "random")
 	}
+}
+
+// c13BigCounts: entry counts well past 2^16 (one per quick run, chosen by the seed; all of them in the thorough tier).
+func c13BigCounts(c *core.Ctx) []int {
+	all := []int{1<<17 + 1, 1<<18 + 1, 1<<19 + 1}
+	if c.Thorough() {
+		return append(all, 1<<20+1)
+	}
+	return []int{1<<18 + 1}
 }
